@@ -529,6 +529,12 @@ func (pf Producer[T]) GenerateParallel(
 					if opts.CanContinueOnError(err) {
 						return zero, ErrIteratorSkip
 					}
+					if !errors.Is(err, io.EOF) {
+						// abort (rather than the end
+						// of the input): stop the
+						// other workers as well.
+						cancel()
+					}
 
 					return zero, io.EOF
 				}
